@@ -62,6 +62,7 @@ def a_opt_eq(w, q):        # seq< one< 'a' >, opt< one< '=' > > >
 VARIANTS = {   # universe alias -> (Open, Marker, Close, content reference, extra class representatives)
     "raw_string<'[', '=', ']'>": (91, 61, 93, None, ()),
     "raw_string<'(', '*', ')'>": (40, 42, 41, None, ()),
+    "raw_string<'\\xab', '\\xb7', '\\xbb'>": (0xab, 0xb7, 0xbb, None, ()),      # 8-bit bracket characters: negative as char, 171 / 183 / 187 as bytes
     "raw_string<'[', '=', ']', tao::pegtl::not_one<'x'>>": (91, 61, 93, not_x, (120,)),
     "raw_string<'[', '=', ']', tao::pegtl::one<'a'>, tao::pegtl::opt<tao::pegtl::one<'='>>>": (91, 61, 93, a_opt_eq, (97,)),
 }
@@ -92,7 +93,7 @@ def scan_chunk(db, item, nchunks):
     pol = pol_of(fn)
     try:
         eolbytes = tuple(sorted(set(b for e in EOLS[pol] for b in e)))      # bytes the end-of-line rule of this input can look for
-        parts = scan.byte_partition(db, fn, eolbytes + tuple(extra), merge_gaps=True)
+        parts = scan.byte_partition(db, fn, eolbytes + tuple(extra), byte_types=('char', 'unsigned char', 'signed char', 'std::uint8_t', 'uint8_t'), merge_gaps=True)     # whichever way the code reads a byte
     except Exception as e:
         return {'broken': 'partition: %s' % e}
     reps = [lo for lo, hi in parts]
